@@ -195,7 +195,10 @@ func TestVerifC06(t *testing.T) {
 				if (key != pathLastRejectedSwitch && key != pathLastSwitch) || json.Unmarshal(m.Data, &rec) != nil || swID(&rec) != id {
 					continue
 				}
-				if key == pathLastRejectedSwitch && sw.RunCount > 0 && !froze && !timedOut && !overLimit {
+				// (the rejection is judged at the instant it was decided, which may be later than
+				// the start of the iteration)
+				lateTimeout := rec.Result != nil && !sw.InitiatedAt.IsZero() && rec.Result.FinishedAt.Sub(sw.InitiatedAt) > timeout
+				if key == pathLastRejectedSwitch && sw.RunCount > 0 && !froze && !timedOut && !lateTimeout && !overLimit {
 					c.Violation("c06-rejudged-on-retry", "request %s had already been approved (run_count %d) and was rejected by %s in an iteration that made no attempt: %s", id, sw.RunCount, r.p.id, rec.Result.Error)
 				}
 				if key == pathLastSwitch && rec.Result != nil && rec.Result.Ok {
@@ -265,7 +268,7 @@ func TestVerifC06(t *testing.T) {
 		steps := c.Src.Int("steps", 10, 40)
 		for i := 0; i < steps; i++ {
 			act := c.Src.Pick("action", "round", "round", "round", "manager-tick-inflight", "file", "file", "compete", "crash-master", "start-hosts",
-				"abort", "abort+refile", "fault-on", "fault-off", "light-maint", "leave-maint", "advance")
+				"abort", "abort+refile", "fault-on", "fault-off", "light-maint", "leave-maint", "advance", "grind")
 			switch act {
 			case "round":
 				for _, p := range s.alive() {
@@ -279,6 +282,23 @@ func TestVerifC06(t *testing.T) {
 					pollAll()
 				}
 				s.advance(2 * time.Second)
+			case "grind":
+				// attempts failing for long: manager iterations at intervals shorter than the
+				// timeout, together spanning more than it
+				gap := []time.Duration{5 * time.Second, 20 * time.Second, 50 * time.Second}[c.Src.Int("grind.gap", 0, 2)]
+				for k, kn := 0, c.Src.Int("grind.rounds", 2, 6); k < kn; k++ {
+					for _, p := range s.alive() {
+						s.run(p, "health")
+					}
+					for _, p := range s.alive() {
+						if r := s.beginTick(p); r != nil {
+							s.finishTick(r)
+							checkTick(r)
+						}
+						pollAll()
+					}
+					s.advance(gap)
+				}
 			case "manager-tick-inflight":
 				if m := s.manager(); m != nil {
 					if r := s.beginTick(m); r != nil {
